@@ -7,11 +7,15 @@ CONSTANTS
   MaxDepth = 8
   FORGET = {}
   NOCOPY = {}
+  OBJ = "grain"
+  ALIASARG = FALSE
+  UNWRITTEN = {}
   EmitMode = 1
 INVARIANT Coherent
 INVARIANT ReadFresh
 INVARIANT DepClosed
 INVARIANT CacheType
+INVARIANT UbiOwn
 ACTION_CONSTRAINT EmitTransition
 VIEW View
 CHECK_DEADLOCK FALSE
